@@ -106,6 +106,14 @@ def paths_iter(spec):
         for n in range(0, spec['maxlen']):
             for tail in itertools.product(SIGMA, repeat=n):
                 yield '/' + ''.join(tail)
+        # case probes: the short strings again with the letters in upper case ('A', 'E' and U+00C9): a literal segment equals
+        # itself and nothing else, '5E5' is a float literal like '5e5'
+        for n in range(1, min(spec['maxlen'], 5)):
+            for tail in itertools.product(SIGMA, repeat=n):
+                t = ''.join(tail)
+                u = t.upper()
+                if u != t:
+                    yield '/' + u
     else:
         for p in spec['paths']:
             yield p
